@@ -16,11 +16,13 @@ Scen(q) == LET S == Scenarios(q.nw, q.nr, q.r)
            IN [k \in 1..Len(S) |->
                  LET s == S[k]  rows == GridRows(s.grid, q.nr)
                  IN [id |-> s.id, kind |-> s.w.kind, cls |-> s.w.cls, cols |-> s.w.cols, scale |-> s.w.scale, rows |-> rows,
-                     limits |-> s.limits, pos |-> LimitPos(Len(rows)), order |-> s.order]]
+                     limits |-> s.limits, pos |-> LimitPos(Len(rows)), order |-> s.order,
+                     rows_alt |-> IF AltOk(rows) THEN AltRows(rows) ELSE <<>>]]
 
 Step(q) ==
   CASE q.k = "scen" -> [scenarios |-> Scen(q)]
-    [] q.k = "hist" -> [histories |-> SetToSeq(Histories), file_histories |-> [i \in 1..Len(FileHistories) |-> [j \in 1..Len(FileHistories[i]) |->
+    [] q.k = "hist" -> [histories |-> SetToSeq(Histories), grid_histories |-> GridHistories,
+                      row_orders |-> [i \in 1..Len(RowOrders) |-> [order |-> RowOrders[i], perm |-> RowPerm(RowOrders[i], q.nr)]], file_histories |-> [i \in 1..Len(FileHistories) |-> [j \in 1..Len(FileHistories[i]) |->
                                                    [state |-> FileHistories[i][j], judged |-> FileStepJudged(FileHistories[i][j])]]]]
     [] q.k = "judge" -> Judge(q)
     [] q.k = "refusal" -> Refusal(q)
